@@ -1,6 +1,7 @@
 import GomlVerif.Lemmas.AnfFwdCases
 import GomlVerif.Lemmas.AnfBwdCases
 import GomlVerif.Lemmas.AnfShape
+import GomlVerif.Lemmas.ProgAnf
 /-!
 # C09 — evaluation order and effects: left to right, exactly once, short-circuit
 
@@ -17,12 +18,13 @@ Full statement (the goal; what is proved below is the `_partial` form):
       (∃ fuel, eval fuel P ρ w (anf e n ret).1 = r ∧ r is not fuel exhaustion)
     and the same for `run (anfProg P n)` against `run P`.
 
-What is proved: exactly this, for every expression `e` with `InAnfFragment e n`, except that
+What is proved: exactly this — for one expression with the called functions unchanged
+(`anf_preserves_partial`) and for the whole file (`anf_file_preserves_partial`, every function
+body replaced by its A-normal form, `anfProg`) — for every expression `e` with
+`InAnfFragment e n` (every function body of the file: `FileInAnfFragment`), except that
  * a source run that goes wrong (`Fail.stuck`, i.e. ill-typed IR) is only required to be
    matched by *some* outcome (ANF names all operands before the operation, so an ill-typed
    operand is noticed later than in the source);
- * the program `P` in which called functions are looked up is the same on both sides
-   (`anf_preserves_partial` is about one function body; the whole-file theorem is not proved);
  * `InAnfFragment` requires (a) that no `let`-bound name of an operand is mentioned by another operand of
    the same node (true when binders are unique, as goml's renamer and gensym guarantee) and
    (b) that no temporary `t<m>` handed out for `e` occurs in `e` (C19's
@@ -119,6 +121,44 @@ theorem anf_preserves_outcome (P : Prog) (e : Expr) (n : Nat) (ρ : Env) (w : Wo
     rcases bw_top P (bw P e) n _ [] ρ ρ w r (hyp_of_fragment h) (Agree.refl _ _) he with h1 | h1
     · exact h1
     · exact absurd h1 hw
+
+/-! ## the whole file -/
+
+/-- every function body of the file is in the fragment, at the counter `anf_file` reaches it with
+    (decidable; the driver evaluates it on every real Lift file) -/
+def FileInAnfFragment (P : Prog) (n : Nat) : Prop := allInFragment P n = true
+
+instance (P : Prog) (n : Nat) : Decidable (FileInAnfFragment P n) := by
+  unfold FileInAnfFragment; infer_instance
+
+/-- **anf_file_preserves** (partial: see the header).  `anfProg P n` is the file `anf_file` produces
+    from `P` starting at gensym counter `n`.  Applying any function value to any arguments in any
+    world — in particular `main` to no arguments in the initial world, which is `Sem.run` — has
+    the same outcome (result value, stdout, store, spawned activations, extern events, failure
+    and failure point) before and after, for some amount of fuel. -/
+theorem anf_file_preserves_partial (P : Prog) (n : Nat) (h : FileInAnfFragment P n) (w : World) (f : Val)
+    (args : List Val) :
+    (∀ fuel r, apply fuel P w f args = r → NF r → ¬Stuck r → ∃ m, apply m (anfProg P n) w f args = r) ∧
+    (∀ fuel r, apply fuel (anfProg P n) w f args = r → NF r →
+      (∃ m, apply m P w f args = r) ∨ (∃ m s w', apply m P w f args = .fail (.stuck s) w')) := by
+  constructor
+  · intro fuel r ha hn hs
+    obtain ⟨m, hm, _⟩ := (prog_fw (progFw_anf h) fuel).2.2.2 w f args r ha hn hs
+    exact ⟨m, hm⟩
+  · intro fuel r ha hn
+    rcases (prog_bw (progBw_anf h) fuel).2.2.2 w f args r ha hn with h1 | ⟨s, w', h1⟩
+    · obtain ⟨m, hm, _⟩ := h1; exact Or.inl ⟨m, hm⟩
+    · obtain ⟨m, hm, _⟩ := h1; exact Or.inr ⟨m, s, w', hm⟩
+
+/-- the same for `Sem.run` (what the check's stage-wise oracle computes): a run of the Lift file
+    that ends normally or fails with a panic is reproduced, outcome for outcome, by the ANF file,
+    under either `go` schedule -/
+theorem anf_run_preserves_partial (P : Prog) (n : Nat) (h : FileInAnfFragment P n) (entry : String) (eager : Bool)
+    (fuel : Nat) (hn : NF (apply fuel P { eager := eager } (.fn entry) []))
+    (hs : ¬Stuck (apply fuel P { eager := eager } (.fn entry) [])) :
+    ∃ m, run m (anfProg P n) entry eager = run fuel P entry eager := by
+  obtain ⟨m, hm⟩ := (anf_file_preserves_partial P n h { eager := eager } (.fn entry) []).1 fuel _ rfl hn hs
+  exact ⟨m, by unfold run; rw [hm]⟩
 
 /-! ## corollaries: order, exactly once, selected branch, short-circuit, loop condition
 
@@ -287,6 +327,22 @@ private def eCap : Expr :=
 example : ¬InAnfFragment eCap 0 := by decide
 example : obs (eval 50 P0 [("x", .int 32 true 1)] {} eCap) = (some 6, "", "ok") := by decide +kernel
 example : obs (eval 50 P0 [("x", .int 32 true 1)] {} (anf eCap 0 ret).1) = (some 10, "", "ok") := by
+  decide +kernel
+
+/-- a whole file: `main` calls `loud` twice in argument position and loops -/
+private def loud : Fn := ⟨"loud", [], [("s", .string), ("v", .int 32 true)], .int 32 true,
+  .letE "u/1" (.call .unit (.var "string_println" (.func [.string] .unit)) [.var "s" .string]) (.var "v" (.int 32 true))⟩
+private def mainFn : Fn := ⟨"main", [], [], .unit,
+  .letE "r/1" (.call (.int 32 true) (.var "f2" (.func [] .unit))
+      [.call (.int 32 true) (.var "loud" (.func [] .unit)) [.prim (.str "first"), i32 7],
+       .call (.int 32 true) (.var "loud" (.func [] .unit)) [.prim (.str "second"), i32 2]])
+    (.call .unit (.var "string_println" (.func [.string] .unit))
+      [.call .string (.var "int32_to_string" (.func [] .string)) [.var "r/1" (.int 32 true)]])⟩
+private def P1 : Prog := { fns := [f2, loud, mainFn] }
+
+example : FileInAnfFragment P1 0 := by decide
+example : (run 60 P1).out = "first\nsecond\n5\n" ∧ (run 60 P1).status = "ok" := by decide +kernel
+example : (run 60 (anfProg P1 0)).out = "first\nsecond\n5\n" ∧ (run 60 (anfProg P1 0)).status = "ok" := by
   decide +kernel
 
 end Examples
